@@ -586,12 +586,12 @@ def setup(ctx):
 
 
 def plan(ctx):
-    cases = [("ulog", i) for i in range(400 if ctx.thorough else 60)]
-    cases += [("ulogdraw", i) for i in range(12 if ctx.thorough else 3)]
-    cases += [("fcm", i) for i in range(300 if ctx.thorough else 40)]
+    cases = [("ulog", i) for i in range(1500 if ctx.thorough else 60)]
+    cases += [("ulogdraw", i) for i in range(30 if ctx.thorough else 3)]
+    cases += [("fcm", i) for i in range(1000 if ctx.thorough else 40)]
     cases += [("kipping", 0)]
-    cases += [("sample", i) for i in range(150 if ctx.thorough else 24)]
-    cases += [("punits", i) for i in range(100 if ctx.thorough else 12)]
+    cases += [("sample", i) for i in range(400 if ctx.thorough else 24)]
+    cases += [("punits", i) for i in range(300 if ctx.thorough else 12)]
     return cases
 
 
